@@ -233,3 +233,6 @@ claim('C19',
       'Trusted: Lean kernel, Mathlib definitions of Nat.Prime / ModEq / gcd / Rat, correspondence harness, in-memory application of the D7 diff, mpmath for the float tail, gmpy2.mpq normalisation.',
       'Lean 4 proofs over an executable model + differential correspondence with the Python implementation; defects carried as pinned/repaired model variants',
       'DESIGN.md section 5 C19, defects D7 D9 D16')
+
+NOT_CLAIMED['C18'] = ('partly built: Props/C18.lean proves that none of the per-key RSA checks, BatchGCD / CheckGCD / CheckGCDN1 raise (HLBE ArithmeticError unreachable), C11 proves EC Add/Double total, '
+                      'C16 the bookkeeping; harness/corr/c18.py pushes degenerate well-formed batches through every real check. EC / ECDSA check-layer totality theorems pending')
